@@ -244,6 +244,37 @@ def run(ctx):
                         r7.fail('%s/%s' % (aid, f['name']), a['span'], 'self-linked owning pointer without a Drop impl: dropping a value of length n recurses n deep in drop glue and overflows the native stack (process abort)')
     r7.need(1)
 
+    # ---------------- R01.9 a callback looked up for a native is accepted only with exactly the expected return type
+    # (the natives downcast callback results by that type: to_primitive!(eq_result, Bool); there is no coercion)
+    r9 = ctx.rule('R01.9', 'get_func_with_type accepts a callback only when its return type equals the expected one')
+    from .lib import absint
+    from .lib.facts import strip_generics as _sg, callee_name as _cn
+    gb = ctx.mir.find('builtin::core::get_func_with_type')
+    if len(gb) != 1:
+        r9.fail('anchor/get_func_with_type', 'src/builtin/core.rs', 'get_func_with_type not found')
+    else:
+        for same in (True, False):
+            def oracle(tm, vals, env, same=same):
+                nm = _sg(_cn(tm) or '')
+                if nm == 'xtype::CallbackType::rtype':
+                    return 'RT'
+                ds = [absint.deref(None, env, absint.deref(None, env, v)) for v in vals]
+                if set(ds) == {'RT', 'ERT'} and len(vals) == 2:
+                    if nm.endswith('::ne') and 'PartialEq' in nm:
+                        return not same
+                    if nm.endswith('::eq') and 'PartialEq' in nm:
+                        return same
+                return absint.UNKNOWN
+            rs = absint.returns(ctx.mir, gb[0], {'_4': ('some', 'ERT')}, oracle)
+            kinds = sorted({(r[0] if isinstance(r, tuple) and r else 'unknown') for r in rs})
+            ok = ('ok' in kinds) if same else ('ok' not in kinds and 'unknown' not in kinds and 'err' in kinds)
+            r9.inst({'callback_return_type': 'equal to the expected type' if same else 'different from the expected type', 'possible_outcomes': kinds}, ok=ok, kind=('ret', same))
+            if not ok:
+                r9.fail('get_func_with_type/%s' % ('rejects-equal' if same else 'accepts-different'), mirq.site(gb[0], 0),
+                        'with a callback whose return type is %s the expected one, get_func_with_type can return %s: a native would downcast the callback result to the wrong primitive type and panic'
+                        % ('equal to' if same else 'different from', kinds))
+    r9.need(2)
+
     # ---------------- R01.8 machine arithmetic of the small integer form (shared with R14.2): an overflow there is a panic
     from . import c14
     r8 = ctx.rule('R01.8', 'small-form integer arithmetic that can overflow is excluded by an earlier arm (shared with R14.2)')
